@@ -4,6 +4,7 @@ import (
 	"encoding/hex"
 	"errors"
 	"math"
+	"math/big"
 	"net/url"
 	"regexp"
 	"strconv"
@@ -108,25 +109,30 @@ func builtinGlobalParseInt(call FunctionCall) Value {
 	value, err := strconv.ParseInt(input, radix, 64)
 	if err != nil {
 		if errors.Is(err, strconv.ErrRange) {
-			base := float64(base)
-			// Could just be a very large number (e.g. 0x8000000000000000)
-			var value float64
-			for _, chr := range input {
-				digit := float64(digitValue(chr))
-				if digit >= base {
-					return NaNValue()
-				}
-				value = value*base + digit
+			// Could just be a very large number (e.g. 0x8000000000000000): the
+			// result is the Number value for the exact integer (ES5 15.1.2.2
+			// steps 13-14), not a sum of individually rounded steps.
+			integer, ok := new(big.Int).SetString(input, radix)
+			if !ok {
+				return NaNValue()
 			}
+			value, _ := new(big.Float).SetInt(integer).Float64()
 			if negative {
-				value *= -1
+				value = -value
 			}
 			return float64Value(value)
 		}
 		return NaNValue()
 	}
 	if negative {
-		value *= -1
+		if value == 0 {
+			return float64Value(math.Copysign(0, -1)) // parseInt("-0") is -0
+		}
+		value = -value
+	}
+	if value > 1<<53 || value < -(1<<53) {
+		// Not every such integer is a Number value: round like any other number.
+		return float64Value(float64(value))
 	}
 
 	return int64Value(value)
